@@ -29,6 +29,9 @@ void h_c02_tables(void)
     int u, a;
     __CPROVER_assume(u >= 0 && u < N_WUN && a >= 0 && a < N_WAS);
     __CPROVER_assert(WU_PRESENT[u], "c02.tables.unary-operator-token-maps-to-the-prescribed-kind");
+    /* the scanner (lexer.l rules and the keyword table of keywords.cpp, read on every run) gives every operator spelling its own token */
+    __CPROVER_assert(WUS_OK[u] && WAS_OK[a], "c02.tables.scanner-maps-each-unary/assignment-operator-spelling-to-its-token");
+    { int w; __CPROVER_assume(w >= 0 && w < N_WANT); __CPROVER_assert(WS_OK[w], "c02.tables.scanner-maps-each-binary-operator-spelling-to-its-token"); }
     __CPROVER_assert(WA_PRESENT[a], "c02.tables.assignment-operator-token-maps-to-the-prescribed-kind");
     __CPROVER_assert(G_LEVEL[WA_TOK[a]] == G_LEVEL[TOK_ASSIGN_LEVEL_TOKEN], "c02.tables.all-assignment-operators-share-one-level");
     __CPROVER_assert(G_IMPLY_IS_NOT_OR, "c02.tables.imply-is-built-as-(not-a)-or-b");
